@@ -41,8 +41,11 @@ SIG_F2 = ("C09:F2 BalancingLearner.tell_pending leaves _pending_loss stale (C15:
           "differs from ask(tell_pending=False) followed by tell_pending of each point")
 SIG_F10 = ("C09:F10 Learner2D.ask(tell_pending=False) rewrites _stack (and leaves the combined interpolator stale): repeated and "
            "later answers differ from an untouched twin")
-SIG_F27 = ("C09:F27 Learner2D interpolates over pending_points in set iteration order: after a snapshot/restore (BalancingLearner."
-           "ask(tell_pending=False)) the same pending points give answers that differ in the last digits and then in the point chosen")
+SIG_F27 = ("C09:F27 Learner2D interpolates over pending_points in set iteration order: after ask(tell_pending=False) (points added "
+           "and discarded again, or a snapshot/restore) the same pending points give answers that differ in the last digits and then "
+           "in the point chosen")
+SIG_F28 = ("C09:F28 IntegratorLearner sums igral and err over a set of intervals: after the snapshot/restore of "
+           "ask(tell_pending=False) the same intervals are summed in another order and loss() differs in the last bit")
 SIG_F17 = ("C09:F17 BalancingLearner.ask(tell_pending=False) resets AverageLearner1D children to default parameters "
            "(restore via __setstate__ re-runs __init__ without delta/alpha/min_samples/...)")
 
@@ -297,6 +300,30 @@ class _SortedPendingInterp:
         self.m.Learner2D._data_interp = self.orig
 
 
+class _FsumIntegrals:
+    """Counterfactual used only for attribution (F28): IntegratorLearner.igral / err as order-independent sums."""
+
+    def __enter__(self):
+        import math
+        import sys as _sys
+        from adaptive.learner import integrator_learner as m
+        self.cls, self.orig = m.IntegratorLearner, (m.IntegratorLearner.igral, m.IntegratorLearner.err)
+
+        def igral(lrn):
+            return math.fsum(i.igral for i in lrn.approximating_intervals)
+
+        def err(lrn):
+            if lrn.approximating_intervals:
+                e = math.fsum(i.err for i in lrn.approximating_intervals)
+                return float("inf") if e > _sys.float_info.max else e
+            return float("inf")
+        m.IntegratorLearner.igral, m.IntegratorLearner.err = property(igral), property(err)
+        return self
+
+    def __exit__(self, *a):
+        self.cls.igral, self.cls.err = self.orig
+
+
 class _SortedSet(set):
     def __iter__(self):
         return iter(sorted(set.__iter__(self)))
@@ -348,6 +375,11 @@ def probe_state(ad, H, n, seed, _counterfactual=False):
         if not cf:
             return [(SIG_F27, f"{name} after {len(H)} ops: {generic[0][1]} (vanishes when Learner2D reads its pending points in "
                               f"sorted order)")], True
+    if generic and G.base_kind(ad.spec) == "Int" and not _counterfactual:
+        with _FsumIntegrals():
+            cf, _ = probe_state(ad, H, n, seed, _counterfactual=True)
+        if not cf:
+            return [(SIG_F28, f"{name} after {len(H)} ops: {generic[0][1]} (vanishes when igral and err are summed with math.fsum)")], True
     if generic and is_bal and chg:
         attrs = sorted({a for v in chg.values() for a in v})
         if G.base_kind(ad.spec) in ("L1D", "Avg1D") and set(attrs) <= L1D_REBUILD_ATTRS:
